@@ -115,6 +115,9 @@ func readCTBOBox(b *box) (ctbo CTBOBox, err error) {
 	if err != nil {
 		return ctbo, err
 	}
+	if len(buf) < 4 {
+		return ctbo, ErrBufLength
+	}
 	// Item Count
 	ctbo.count = crxEndian.Uint32(buf[0:4])
 
@@ -141,7 +144,7 @@ type CTBOBox struct {
 
 // MarshalZerologArray is a zerolog interface for logging
 func (ctbo CTBOBox) MarshalZerologArray(a *zerolog.Array) {
-	for i := 0; i < int(ctbo.count); i++ {
+	for i := 0; i < int(ctbo.count) && i < len(ctbo.items); i++ {
 		item := ctbo.items[i]
 		if item.length == 0 && item.offset == 0 {
 			break
